@@ -798,6 +798,11 @@ def _install_skip4(reg):
                    z3.Implies(T.MinTrapSet(Nn, sv)[sv], z3.Exists([k_], z3.And(0 <= k_, k_ < LS.len(mt), LS.at(mt)[k_] == sv))))),
             patterns=[T.IsTrap(Nn, sv)]))
 
+    def lem_card_bound4(c):
+        sq = z3.Const("s!cb4", T.SpaceS)
+        Nn = N(c.self)
+        return z3.ForAll([sq], z3.Implies(z3.And(T.wf_space(sq), T.dom_within(sq, Nn)), T.card(sq) <= T.nvars(Nn)), patterns=[T.card(sq)])
+
     def tw_ok(c, v, upto):
         """the first `upto` entries of trap_with_id pair each minimal trap space with its (expanded, successor-free) node"""
         tw, mt = c.trap_with_id, c.minimal_traps
@@ -897,7 +902,7 @@ def _install_skip4(reg):
             1: LoopContract("for node_id in self.node_ids()", loopB, havoc_heap={"self": ALLF},
                             lemmas=[("L3.min_traps_inside(EnumInside)+L2.below_root", lem_inside)]),
             2: LoopContract("for m_id, m_trap in trap_with_id", loopC, havoc_heap={"self": EDGEF},
-                            lemmas=[("L3.min_traps_inside(EnumInside)+L2.below_root", lem_inside),
+                            lemmas=[("L3.min_traps_inside(EnumInside)+L2.below_root", lem_inside), ("def.card(bounded)", lem_card_bound4),
                                     ("def.SkipOK", lambda c: S.skipok_intro_inside(N(c.self), c.self.space[c.node_id], c.minimal_traps, c.self.succsig[c.node_id]))]),
         },
         local_types={"minimal_traps": LS, "trap_with_id": TW, "skipped_nodes": TInt, "skip_edges": TInt},
